@@ -1532,4 +1532,240 @@ theorem encode_list_eq (o : SortOptions) (t : Ty) (vs : List Val) :
   | nil => simp [encode, listEnc]
   | cons v vs => simp [encode, listEnc, List.map_map, Function.comp_def]
 
+theorem encodeVar_ne_nil (o : SortOptions) (v : Option (List UInt8)) : encodeVar o v ≠ [] := by
+  intro h
+  have h1 := encodeVar_length o v
+  have h2 := paddedLength_pos (v.map List.length)
+  rw [h] at h1; simp at h1; omega
+
+theorem listEnc_ne_nil (o : SortOptions) (xs : List (List UInt8)) : listEnc o xs ≠ [] := by
+  unfold listEnc
+  intro h
+  have := (List.append_eq_nil_iff.mp h).2
+  exact encodeVar_ne_nil o _ this
+
+theorem invIf_ne_nil (d : Bool) (x : List UInt8) (h : x ≠ []) : invIf d x ≠ [] := by
+  intro h'
+  have := invIf_length d x
+  rw [h'] at this
+  exact h (List.length_eq_zero_iff.mp this.symm)
+
+/-- a conforming value never has an empty encoding -/
+theorem encode_ne_nil : (t : Ty) → (o : SortOptions) → (a : Val) → conforms t a = true → encode o t a ≠ []
+  | .leaf t, o, a, h => by
+    simp only [conforms] at h
+    simp only [encode]
+    cases hv : a.toFVal with
+    | none => rw [hv] at h; simp at h
+    | some fv => rw [hv] at h; exact encodeField_ne_nil o t fv h
+  | .null, o, a, _ => by
+    simp only [encode]; exact invIf_ne_nil _ _ (by simp)
+  | .struct fs, o, a, _ => by cases a <;> simp [encode]
+  | .list t, o, a, h => by
+    cases a with
+    | list vs => rw [encode_list_eq]; exact listEnc_ne_nil o _
+    | null => simp only [encode]; exact encodeVar_ne_nil o none
+    | int _ => simp [conforms] at h
+    | bytes _ => simp [conforms] at h
+    | tuple _ => simp [conforms] at h
+    | union _ _ => simp [conforms] at h
+  | .fsl n t, o, a, _ => by cases a <;> simp [encode]
+  | .dict t, o, a, h => by
+    simp only [conforms] at h
+    simp only [encode]; exact encode_ne_nil t o a h
+  | .ree t, o, a, _ => by simp only [encode]; exact encodeVar_ne_nil o _
+  | .map k v, o, a, h => by
+    cases a with
+    | list es =>
+      cases es with
+      | nil => simp only [encode]; exact encodeVar_ne_nil o _
+      | cons e es =>
+        simp only [encode]
+        intro h'
+        exact encodeVar_ne_nil o _ (List.append_eq_nil_iff.mp h').2
+    | null => simp only [encode]; exact encodeVar_ne_nil o none
+    | int _ => simp [conforms] at h
+    | bytes _ => simp [conforms] at h
+    | tuple _ => simp [conforms] at h
+    | union _ _ => simp [conforms] at h
+  | .union ids kids, o, a, _ => by
+    cases a <;> simp only [encode] <;>
+      (intro h'; exact invIf_ne_nil _ _ (by simp) (List.append_eq_nil_iff.mp h').1)
+
+
+theorem then_some (r : Ordering) (X : Ordering) :
+    (if r = .eq then some X else some r) = some (r.then X) := by cases r <;> rfl
+
+theorem flatten_map_cmp {α} (f : α → List UInt8) (c : α → α → Ordering) : ∀ (xs ys : List α), xs.length = ys.length →
+    (∀ x ∈ xs, ∀ y ∈ ys, cmpStrict (f x) (f y) = some (c x y)) →
+    cmpStrict (xs.map f).flatten (ys.map f).flatten = some (lexCompare c xs ys) := by
+  intro xs
+  induction xs with
+  | nil => intro ys h _; cases ys with
+    | nil => rfl
+    | cons _ _ => simp at h
+  | cons x xs ih =>
+    intro ys h hc
+    cases ys with
+    | nil => simp at h
+    | cons y ys =>
+      simp only [List.map_cons, List.flatten_cons, lexCompare]
+      rw [cmpStrict_append_of_cmpStrict _ _ (hc x (by simp) y (by simp)),
+        ih ys (by simpa using h) (fun a ha b hb => hc a (by simp [ha]) b (by simp [hb])), then_some]
+
+theorem nullHead_lt (o : SortOptions) (X Y : List UInt8) (v : UInt8) (hv : v = 1) :
+    cmpStrict (nullSentinel o :: X) (v :: Y) = some (nullOrd o true false) := by
+  subst hv
+  obtain ⟨d, nf⟩ := o
+  cases nf
+  · exact cmpStrict_cons_gt _ _ (by show (1 : UInt8) < UInt8.ofNat _; decide)
+  · exact cmpStrict_cons_lt _ _ (by show UInt8.ofNat _ < (1 : UInt8); decide)
+
+theorem nullHead_gt (o : SortOptions) (X Y : List UInt8) (v : UInt8) (hv : v = 1) :
+    cmpStrict (v :: Y) (nullSentinel o :: X) = some (nullOrd o false true) := by
+  subst hv
+  obtain ⟨d, nf⟩ := o
+  cases nf
+  · exact cmpStrict_cons_lt _ _ (by show (1 : UInt8) < UInt8.ofNat _; decide)
+  · exact cmpStrict_cons_gt _ _ (by show UInt8.ofNat _ < (1 : UInt8); decide)
+
+theorem listEnc_head (o : SortOptions) (xs : List (List UInt8)) :
+    ∃ z R, listEnc o xs = encodeVar o (some z) ++ R := by
+  cases xs with
+  | nil => exact ⟨[], [], by simp [listEnc]⟩
+  | cons x xs => exact ⟨x, _, by simp only [listEnc, List.map_cons, List.flatten_cons, List.append_assoc]; rfl⟩
+
+theorem listNull_lt (o : SortOptions) (xs : List (List UInt8)) :
+    cmpStrict (encodeVar o none) (listEnc o xs) = some (nullOrd o true false) := by
+  obtain ⟨z, R, h⟩ := listEnc_head o xs
+  rw [h, ← List.append_nil (encodeVar o none), cmpStrict_append_of_cmpStrict _ _ (encodeVar_cmp o none (some z))]
+  obtain ⟨d, nf⟩ := o
+  cases nf <;> simp [compareVal, nullOrd]
+
+theorem listNull_gt (o : SortOptions) (xs : List (List UInt8)) :
+    cmpStrict (listEnc o xs) (encodeVar o none) = some (nullOrd o false true) := by
+  obtain ⟨z, R, h⟩ := listEnc_head o xs
+  rw [h, ← List.append_nil (encodeVar o none), cmpStrict_append_of_cmpStrict _ _ (encodeVar_cmp o (some z) none)]
+  obtain ⟨d, nf⟩ := o
+  cases nf <;> simp [compareVal, nullOrd]
+
+
+theorem conforms_struct {fs : List Ty} {a : Val} (h : conforms (.struct fs) a = true) :
+    a = .null ∨ ∃ vs, a = .tuple vs ∧ conformsAll fs vs = true := by
+  cases a <;> simp [conforms] at h ⊢
+  exact h
+
+theorem conforms_list {t : Ty} {a : Val} (h : conforms (.list t) a = true) :
+    a = .null ∨ ∃ vs, a = .list vs ∧ ∀ v ∈ vs, conforms t v = true := by
+  cases a <;> simp [conforms] at h ⊢
+  exact h
+
+theorem conforms_fsl {n : Nat} {t : Ty} {a : Val} (h : conforms (.fsl n t) a = true) :
+    a = .null ∨ ∃ vs, a = .list vs ∧ vs.length = n ∧ ∀ v ∈ vs, conforms t v = true := by
+  cases a <;> simp [conforms] at h ⊢
+  exact h
+
+theorem structValid_eq : UInt8.ofNat Generated.C11.STRUCT_VALID_BYTE = 1 := by decide
+theorem fslValid_eq : UInt8.ofNat Generated.C11.FSL_VALID_BYTE = 1 := by decide
+
+mutual
+/-- **nested order theorem** (no Map / Union): strict byte order of the model's encoding =
+the logical order `cmpN`, for every nesting depth -/
+theorem encode_cmpN : (t : Ty) → (o : SortOptions) → (a b : Val) → unionFree t = true →
+    conforms t a = true → conforms t b = true →
+    cmpStrict (encode o t a) (encode o t b) = some (cmpN t o a b)
+  | .leaf t, o, a, b, _, ha, hb => by
+    simp only [conforms] at ha hb
+    simp only [encode, cmpN]
+    cases hva : a.toFVal with
+    | none => rw [hva] at ha; simp at ha
+    | some x =>
+      cases hvb : b.toFVal with
+      | none => rw [hvb] at hb; simp at hb
+      | some y => rw [hva] at ha; rw [hvb] at hb; exact encodeField_cmp o t x y ha hb
+  | .null, o, a, b, _, _, _ => by
+    simp only [encode, cmpN]; exact cmpStrict_eq_iff.mpr rfl
+  | .struct fs, o, a, b, hu, ha, hb => by
+    simp only [unionFree] at hu
+    rcases conforms_struct ha with rfl | ⟨xs, rfl, hx⟩ <;> rcases conforms_struct hb with rfl | ⟨ys, rfl, hy⟩
+    · simp only [encode, cmpN]; exact cmpStrict_eq_iff.mpr rfl
+    · simp only [encode, cmpN]; exact nullHead_lt o _ _ _ structValid_eq
+    · simp only [encode, cmpN]; exact nullHead_gt o _ _ _ structValid_eq
+    · simp only [encode, cmpN, cmpStrict_cons_same]
+      exact encodeFields_cmpN fs o xs ys hu hx hy
+  | .list t, o, a, b, hu, ha, hb => by
+    simp only [unionFree] at hu
+    rcases conforms_list ha with rfl | ⟨xs, rfl, hx⟩ <;> rcases conforms_list hb with rfl | ⟨ys, rfl, hy⟩
+    · simp only [encode, cmpN]; exact cmpStrict_eq_iff.mpr rfl
+    · rw [encode_list_eq]; simp only [encode, cmpN]; exact listNull_lt o _
+    · rw [encode_list_eq]; simp only [encode, cmpN]; exact listNull_gt o _
+    · rw [encode_list_eq, encode_list_eq]
+      simp only [cmpN]
+      rw [listEnc_cmp o _ _
+        (by intro x hx'; obtain ⟨v, hv, rfl⟩ := List.mem_map.mp hx'; exact encode_ne_nil t _ v (hx v hv))
+        (by intro x hx'; obtain ⟨v, hv, rfl⟩ := List.mem_map.mp hx'; exact encode_ne_nil t _ v (hy v hv)),
+        lexCompare_map]
+      congr 2
+      exact lexCompare_congr _ _ xs ys (fun a ha b hb =>
+        compareBytes_of_cmpStrict (encode_cmpN t (childOpts o) a b hu (hx a ha) (hy b hb)))
+  | .fsl n t, o, a, b, hu, ha, hb => by
+    simp only [unionFree] at hu
+    rcases conforms_fsl ha with rfl | ⟨xs, rfl, hxl, hx⟩ <;> rcases conforms_fsl hb with rfl | ⟨ys, rfl, hyl, hy⟩
+    · simp only [encode, cmpN]; exact cmpStrict_eq_iff.mpr rfl
+    · simp only [encode, cmpN]; exact nullHead_lt o _ _ _ fslValid_eq
+    · simp only [encode, cmpN]; exact nullHead_gt o _ _ _ fslValid_eq
+    · simp only [encode, cmpN, cmpStrict_cons_same]
+      exact flatten_map_cmp (fun v => encode o t v) (cmpN t o) xs ys (by omega)
+        (fun a ha b hb => encode_cmpN t o a b hu (hx a ha) (hy b hb))
+  | .dict t, o, a, b, hu, ha, hb => by
+    simp only [unionFree] at hu
+    simp only [conforms] at ha hb
+    simp only [encode, cmpN]
+    exact encode_cmpN t o a b hu ha hb
+  | .ree t, o, a, b, hu, ha, hb => by
+    simp only [unionFree] at hu
+    simp only [conforms] at ha hb
+    simp only [encode, cmpN]
+    rw [encodeVar_cmp, compareVal_some, compareBytes_of_cmpStrict (encode_cmpN t (childOpts o) a b hu ha hb)]
+  | .map _ _, _, _, _, hu, _, _ => by simp [unionFree] at hu
+  | .union _ _, _, _, _, hu, _, _ => by simp [unionFree] at hu
+theorem encodeFields_cmpN : (ts : List Ty) → (o : SortOptions) → (xs ys : List Val) → unionFreeAll ts = true →
+    conformsAll ts xs = true → conformsAll ts ys = true →
+    cmpStrict (encodeFields o ts xs) (encodeFields o ts ys) = some (cmpFieldsN ts o xs ys)
+  | [], o, xs, ys, _, hx, hy => by
+    cases xs <;> cases ys <;> simp_all [conformsAll, encodeFields, cmpFieldsN, cmpStrict]
+  | t :: ts, o, xs, ys, hu, hx, hy => by
+    cases xs with
+    | nil => simp [conformsAll] at hx
+    | cons x xs =>
+      cases ys with
+      | nil => simp [conformsAll] at hy
+      | cons y ys =>
+        simp only [unionFreeAll, conformsAll, Bool.and_eq_true] at hu hx hy
+        simp only [encodeFields, cmpFieldsN]
+        rw [cmpStrict_append_of_cmpStrict _ _ (encode_cmpN t o x y hu.1 hx.1 hy.1),
+          encodeFields_cmpN ts o xs ys hu.2 hx.2 hy.2, then_some]
+end
+
+
+theorem encodeRowN_cmp (fs : List (Ty × SortOptions)) : ∀ (r1 r2 : List Val),
+    (∀ f ∈ fs, unionFree f.1 = true) → conformsRow fs r1 = true → conformsRow fs r2 = true →
+    cmpStrict (encodeRowN fs r1) (encodeRowN fs r2) = some (cmpRowN fs r1 r2) := by
+  induction fs with
+  | nil =>
+    intro r1 r2 _ h1 h2
+    cases r1 <;> cases r2 <;> simp_all [conformsRow, encodeRowN, cmpRowN, cmpStrict]
+  | cons f fs ih =>
+    obtain ⟨t, o⟩ := f
+    intro r1 r2 hu h1 h2
+    cases r1 with
+    | nil => simp [conformsRow] at h1
+    | cons a as =>
+      cases r2 with
+      | nil => simp [conformsRow] at h2
+      | cons b bs =>
+        simp only [conformsRow, Bool.and_eq_true] at h1 h2
+        simp only [encodeRowN, cmpRowN]
+        rw [cmpStrict_append_of_cmpStrict _ _ (encode_cmpN t o a b (hu (t, o) (by simp)) h1.1 h2.1),
+          ih as bs (fun f hf => hu f (by simp [hf])) h1.2 h2.2, then_some]
 end ArrowModel.C11
